@@ -386,7 +386,8 @@ impl<'a> DwarfUnwinder<'a> {
         )?
         .ok_or(UnwindNoContext)?;
 
-        for _ in 0..frame_num {
+        // the context of frame N holds the registers of frame N + 1 (its caller)
+        for _ in 1..frame_num {
             let ret_addr = unwind_ucx.return_address().ok_or(UnwindTooDeepFrame)?;
 
             ecx = ExplorationContext::new(
@@ -401,7 +402,11 @@ impl<'a> DwarfUnwinder<'a> {
             unwind_ucx = UnwindContext::next(unwind_ucx, &ecx)?.ok_or(UnwindNoContext)?;
         }
 
-        let unwind_registers = unwind_ucx.registers();
+        let mut unwind_registers = unwind_ucx.registers();
+        let sp_register = Register::Rsp
+            .dwarf_register()
+            .expect("stack pointer register must map to dwarf register");
+        unwind_registers.update(sp_register, unwind_ucx.cfa.into());
         registers.update_from(&unwind_registers);
 
         Ok(())
